@@ -110,7 +110,7 @@ func runPropOn(p *propDef, w *World, tier, repo, verif string, seed int) (code i
 	known := loadKnown(verif + "/known_findings.jsonl")
 	r := newReport(p.id, p.level)
 	setInlinePolicy(w)
-	p.run(w, r, tier)
+	runRules(p, w, r, tier)
 	return r.finish(finishOpts{verifDir: verif, tier: tier, seed: seed, start: start, w: w, known: known,
 		cmd: fmt.Sprintf("./bin/xcheck -prop %s -tier %s", p.id, tier), trusted: append(append([]string{}, commonTrusted...), p.trusted...), explain: p.explain, assume: p.assume, extra: map[string]interface{}{"source_normalisation": normList(w)}})
 }
@@ -134,7 +134,7 @@ func runProp(p *propDef, tier, repo, verif string, seed int, variant string) (co
 	w := load(loadOpts{repo: repo})
 	r := newReport(p.id, p.level)
 	setInlinePolicy(w)
-	p.run(w, r, tier)
+	runRules(p, w, r, tier)
 	extra := map[string]interface{}{"source_normalisation": normList(w)}
 	if tier == "thorough" {
 		code2, info := thorough(p, repo, verif, known)
@@ -171,6 +171,36 @@ func setInlinePolicy(w *World) {
 		}
 		return !knownFuncs[w.funcKey(callee)]
 	}
+}
+
+// runRules runs the property's rule set. A tree on which the rules cannot be evaluated — a function, field or type
+// they are anchored in is gone, or a rule trips over a shape it was not written for — is not a tree on which the
+// property has been decided: the failure becomes an undecided obligation (exit 1 with a VIOLATION line and a replay
+// file), never a silent pass and never a bare crash. (Load and type-check failures stay exit 2: nothing was analysed.)
+func runRules(p *propDef, w *World, r *Report, tier string) {
+	defer func() {
+		e := recover()
+		if e == nil {
+			return
+		}
+		if hf, ok := e.(hardFail); ok {
+			if strings.HasPrefix(hf.msg, "unresolved anchor") {
+				r.Undecided("ENGINE", "anchor:"+strings.TrimSpace(strings.TrimPrefix(hf.msg, "unresolved anchor:")), "-", hf.msg+": the code this property's rules are anchored in has been renamed, moved or removed; the rules after this point were not evaluated")
+				return
+			}
+			panic(e)
+		}
+		st := strings.Split(string(debug.Stack()), "\n")
+		where := ""
+		for _, l := range st {
+			if strings.Contains(l, "/checker/c") && strings.Contains(l, ".go:") {
+				where = strings.TrimSpace(l)
+				break
+			}
+		}
+		r.Undecided("ENGINE", "internal-error", "-", fmt.Sprintf("the rule set could not be evaluated on this tree (%v at %s): a function the rules are anchored in has changed shape (signature, result list); the rules after this point were not evaluated", e, where))
+	}()
+	p.run(w, r, tier)
 }
 
 // normList: what normalize.go rewrote in the overlay before loading (empty on a tree without step tables).
